@@ -62,7 +62,7 @@ def conclude(spec, cfgs, tot, tier, seed, t0):
         except env.HarnessError:
             best = None
         if best is None:
-            best = harness.run(cfg, tuple(vr["choices"]), list(spec.monitors(cfg)))
+            best = explore.execute(spec, cfg, tuple(vr["choices"]))
         v = explore.unlisted(spec, cfg, best, clause)
         if v is None:
             print("HARNESS-ERROR: violation %s on %s did not reproduce" % (clause, cfg.get("name")))
